@@ -237,7 +237,7 @@ class C15(Prop):
 
     ERRS = (KeyError, IndexError, TypeError, AttributeError, AssertionError, ValueError)
 
-    def _getters(self, v, spec):
+    def _getters(self, v, spec, canon=canon):
         """db_spec -> JSON round trip (the DB column) -> the five getters; each may raise"""
         bfv = self.BFV(v)
         out = {}
@@ -276,7 +276,7 @@ class C15(Prop):
 
     # ---- the property, executed on the real output -----------------------------------------------------------
     @staticmethod
-    def expected(v, spec):
+    def expected(v, spec, canon=canon):
         secrets = spec.get('secrets')
         if v == 1:
             e_sec = secrets
@@ -305,7 +305,14 @@ class C15(Prop):
                 want = self.expected(v, c['spec'])
                 for key in ('secrets', 'sa', 'in', 'out', 'ms'):
                     if got[key] != want[key]:
-                        return (f'format version {v}: {self.NAMES[key]}(db_spec(spec)) = {got[key]} but the spec holds {want[key]} '
+                        def plain(x):
+                            return x
+                        try:
+                            g = self._getters(v, json.loads(json.dumps(c['spec'])), canon=plain)[key]
+                        except Exception as e:      # noqa: BLE001 (message only)
+                            g = f'<{type(e).__name__}>'
+                        w = self.expected(v, c['spec'], canon=plain)[key]
+                        return (f'format version {v}: {self.NAMES[key]}(db_spec(spec)) = {json.dumps(g)} but the spec holds {json.dumps(w)} '
                                 f'(spec {json.dumps(c["spec"])[:300]})')
             return None
         if c['k'] == 'bitsnone':
